@@ -182,20 +182,39 @@ def long_types(ft, pad):
     return out
 
 
-def gen_query(rng, SET, long_ft=False):
+# kinds of collection a featuretype filter may be handed over as ("string or collection"); the last two are one-shot
+# iterators (not collections: judged only if the tree under test accepts them)
+COLLECTION_FORMS = ["list", "tuple", "set", "frozenset", "dict", "dict_keys", "deque"]
+ONE_SHOT_FORMS = ["generator", "iterator"]
+UNORDERED_FORMS = ("set", "frozenset", "dict", "dict_keys")     # repeats cannot be expressed
+
+
+def gen_query(rng, SET, long_ft=False, kinds=None):
+    """kinds = (collection form, size class "0" | "1" | "2" | "many"): a query of the 'every kind of collection' block."""
     q = {"api": "all_features" if rng.random() < 0.6 else "features_of_type"}
     odd = SET.get("flavor") == "odd"
-    if long_ft:
-        q["ft_form"] = rng.choice(["list", "tuple", "set"])
+    if kinds:
+        form, size = kinds
+        q["ft_form"] = form
+        pool = list(SET["types"]) + ([rng.choice(ODD_TYPES), rng.choice(PROBES)] if odd else
+                                     [rng.choice(NORM_TYPES), rng.choice(NORM_TYPES)] if SET.get("flavor") == "norm" else
+                                     [rng.choice(TYPES), "absent"])
+        pool = sorted(set(pool))
+        k = {"0": 0, "1": 1, "2": 2}.get(size)
+        if k is None:
+            k = rng.randrange(3, len(pool) + 1) if len(pool) >= 3 else len(pool)
+        q["ft"] = sorted(rng.sample(pool, min(k, len(pool))))
+    elif long_ft:
+        q["ft_form"] = rng.choice(["list", "tuple", "set", "frozenset", "dict_keys", "deque"])
         pool = list(SET["types"])
         k = min(len(pool), rng.choice([1, 2, 3, 4]))
         q["ft"] = sorted(rng.sample(pool, k))
         q["ft_pad"] = {"n": rng.randrange(1000, 1201), "seed": rng.randrange(1 << 30),
-                       "dups": q["ft_form"] != "set" and rng.random() < 0.5}
+                       "dups": q["ft_form"] not in UNORDERED_FORMS and rng.random() < 0.5}
     elif q["api"] == "all_features" and rng.random() < 0.4:
         q["ft"], q["ft_form"] = None, None
     else:
-        q["ft_form"] = rng.choice(["str", "str", "list", "tuple", "set"])
+        q["ft_form"] = rng.choice(["str", "str", "str", "list", "tuple", "set", "frozenset", "dict", "dict_keys", "deque"])
         pool = SET["types"] + ([rng.choice(ODD_TYPES), rng.choice(PROBES)] if odd else
                                [rng.choice(NORM_TYPES), rng.choice(NORM_TYPES)] if SET.get("flavor") == "norm" else
                                [rng.choice(TYPES), "absent"])
